@@ -443,7 +443,11 @@ def check(case, M):
                 failures.append({"kind": "corr", "what": f"model {o}: fuel exhausted", "detail": str(ans)})
                 stop = True
                 break
-            _, maut, mstates, mb, sb, mxb, sxb, mreads = ans
+            _, maut, mstates, mb, sb, mxb, sxb, mreads, cert = ans
+            if o in ("minimise", "minimise_map") and cert != "1":
+                failures.append({"kind": "corr", "what": "minimise: the model's final partition fails the congruence certificate",
+                                 "detail": f"step {opi}: hypothesis of theorem C07_min_lang_cert is false on this input (cert={cert})"})
+                stop = True
             m_rules = {(str(r[0]), tuple(rq(a) for a in r[1])): rq(r[2]) for r in maut[1]}
             if len(m_rules) != len(maut[1]):
                 raise RuntimeError("model returned a table with duplicate keys")
